@@ -49,8 +49,181 @@ def run_one(source, choices, out, cfg=None):
 
 def judge(case):
     out = core.Outcome()
+    if case.get("family") == "sockets":
+        return judge_sockets(case)
+    if case.get("family") == "iter":
+        return judge_iter(case)
     run_one(case["source"], case.get("choices", ()), out, case.get("cfg"))
     return out
+
+
+# -- stream kinds other than the fault-injecting double ---------------------------------------
+def _locate(source, raws, out, label):
+    """Every raw must be a slice of THIS source, the slices non-overlapping and in stream order."""
+    from mc import pinned  # pylint: disable=import-outside-toplevel
+
+    pos = 0
+    for k, (raw, msg) in enumerate(raws):
+        raw = bytes(raw)
+        at = source.find(raw, pos)
+        if at < 0:
+            where = "earlier in this stream (overlap / repeat)" if source.find(raw) >= 0 else \
+                "nowhere in this stream"
+            out.bad("raw-not-contiguous-slice" if source.find(raw) < 0 else "pairs-overlap",
+                    f"{label}: pair {k} raw {raw[:10].hex()}.. ({len(raw)} B) occurs {where} "
+                    f"(search from offset {pos} of {len(source)})")
+            return
+        pos = at + len(raw)
+        if not pinned.frame_ok(raw):
+            out.bad("malformed-frame-delivered:other", f"{label}: pair {k} is not a well-formed frame")
+        elif msg is None or bytes(msg.payload) != raw[3:-3]:
+            out.bad("payload-not-frame-body", f"{label}: pair {k} parsed payload is not the frame body")
+        elif len(raw) >= 8 and msg.identity != pinned.ref_identity(raw[3:-3]):
+            out.bad("identity-wrong", f"{label}: pair {k} identity {msg.identity!r}")
+
+
+def judge_sockets(case):
+    """
+    A HISTORY of connections in one process: readers over sockets one after another (the earlier
+    ones possibly abandoned half-way); every pair a reader returns must come from ITS OWN stream.
+    """
+    from pyrtcm import RTCMReader  # pylint: disable=import-outside-toplevel
+    from mc.doubles import NonTermination, SegSocket  # pylint: disable=import-outside-toplevel
+
+    out = core.Outcome()
+    lib = H.lib_exceptions()
+    for k, conn in enumerate(case["conns"]):
+        source, segs, take = conn["source"], conn["segs"], conn.get("take")
+        sock = SegSocket(source, segs)
+        raws = []
+        try:
+            rdr = RTCMReader(sock, validate=1, quitonerror=case.get("q", 0))
+            for _ in range(len(source) + 8):
+                if take is not None and len(raws) >= take:
+                    break
+                try:
+                    raw, msg = rdr.read()
+                except lib:
+                    continue
+                if raw is None and msg is None:
+                    break
+                raws.append((raw, msg))
+                out.transitions += 1
+        except NonTermination:
+            out.bad("nontermination", f"connection {k}: recv budget exceeded")
+        except Exception as err:  # pylint: disable=broad-except
+            out.bad("foreign-exception", f"connection {k}: {type(err).__name__}: {err}")
+        finally:
+            sock.close()
+        _locate(source, raws, out, f"connection {k} of {len(case['conns'])} ({conn['name']}, segments {segs})")
+        if raws:
+            out.nontrivial = True
+    out.obs = core.h64(repr((case["name"], out.transitions)))
+    return out
+
+
+ITER_OPS = ("read", "next", "for1", "for2", "forall", "iternext")
+
+
+def judge_iter(case):
+    """
+    One reader over a SEEKABLE stream driven through a sequence of the iteration protocols a
+    caller may mix (read(), next(), for-loops left early, a fresh iter()): pairs must be
+    non-overlapping slices in stream order whatever the mix.
+    """
+    import io  # pylint: disable=import-outside-toplevel
+
+    from pyrtcm import RTCMReader  # pylint: disable=import-outside-toplevel
+
+    out = core.Outcome()
+    source = case["source"]
+    lib = H.lib_exceptions()
+    stream = io.BytesIO(source) if case["kind"] == "bytesio" else io.BufferedReader(io.BytesIO(source), 16)
+    stream.read(case.get("prelude", 0))
+    rdr = RTCMReader(stream, validate=1, quitonerror=0)
+    events = []
+
+    def got(raw, msg):
+        events.append(("pair", stream.tell() - len(raw), stream.tell(), raw, msg))
+
+    try:
+        for op in case["ops"]:
+            if op == "read":
+                raw, msg = rdr.read()
+                if raw is not None:
+                    got(raw, msg)
+            elif op == "next":
+                try:
+                    got(*next(rdr))
+                except StopIteration:
+                    pass
+            elif op == "iternext":
+                try:
+                    got(*next(iter(rdr)))
+                except StopIteration:
+                    pass
+            else:
+                lim = {"for1": 1, "for2": 2, "forall": 1 << 30}[op]
+                n = 0
+                for raw, msg in rdr:
+                    got(raw, msg)
+                    n += 1
+                    if n >= lim:
+                        break
+    except lib as err:
+        out.obs = ("lib", type(err).__name__)
+    except Exception as err:  # pylint: disable=broad-except
+        out.bad("foreign-exception", f"{case['name']}: {type(err).__name__}: {err}")
+    H.check_pairs(source, events, out)
+    out.transitions = len(events)
+    out.nontrivial = len(events) > 0
+    out.obs = core.h64(repr((case["name"], [(e[1], e[2]) for e in events])))
+    return out
+
+
+def kind_cases(tier):
+    alpha = items.full_alphabet(tier)
+    short = [a for a in alpha if len(a["data"]) <= 40]
+    out = []
+    # histories of two (thorough: three) connections; segmentations: all at once, byte by byte,
+    # and every two-way split of the first connection's stream
+    def segsets(data):
+        sets = [[], [1] * len(data)]
+        sets += [[k] for k in range(1, min(len(data), 24))]
+        return sets
+
+    for a in short:
+        for b in short:
+            if a["data"] == b["data"]:
+                continue
+            for sa in segsets(a["data"]):
+                out.append({"family": "sockets", "name": f"{a['name']}|{b['name']}/{len(sa)}",
+                            "conns": [{"name": a["name"], "source": a["data"], "segs": sa},
+                                      {"name": b["name"], "source": b["data"], "segs": []}]})
+    f = items.frames()
+    multi = [items.concat(["F2", "F19", "Fmsm"]), items.concat(["Fnested", "nmeaG", "F2", "F0", "F19"]),
+             items.concat(["F19", "dmgcrc", "F2", "D3", "Fsync", "F1"])]
+    for m in multi:
+        for other in multi:
+            for take in (None, 0, 1, 2):
+                for sa in ([], [1] * 30, [7, 9, 3]):
+                    out.append({"family": "sockets", "name": f"multi/{take}",
+                                "conns": [{"name": "m", "source": m, "segs": sa, "take": take},
+                                          {"name": "o", "source": other[::1] + f["F1"]["data"], "segs": []},
+                                          {"name": "m2", "source": f["F0"]["data"] + m, "segs": [2, 5]}]})
+    depth = 3 if tier == "quick" else 4
+    for kind in ("bytesio", "buffered"):
+        for m in multi:
+            for prelude in (0, 3):
+                for d in range(1, depth + 1):
+                    for ops in itertools.product(ITER_OPS, repeat=d):
+                        out.append({"family": "iter", "name": f"{kind}/{'+'.join(ops)}/{prelude}",
+                                    "kind": kind, "source": m, "ops": list(ops), "prelude": prelude})
+    return out
+
+
+def _work_kinds(chunk):
+    return core.run_cases(judge, chunk, sample_every=2003)
 
 
 def explore_stream(name, source, bound, st, cfg=None, keep=False):
@@ -134,6 +307,11 @@ def run(tier, seed, t0):
     work, info = plan(tier)
     core.check_deterministic(judge, {"source": items.concat(["F2", "D3", "F19"]), "choices": [0, 1]})
     st = core.pmap(_work, work)
+    kc = kind_cases(tier)
+    st2 = core.pmap(_work_kinds, core.chunks(kc, 400))
+    st.merge(st2)
+    st.extra["socket_history_cases"] = sum(1 for c in kc if c["family"] == "sockets")
+    st.extra["iteration_protocol_cases"] = sum(1 for c in kc if c["family"] == "iter")
     st.extra.pop("cursors", None)
     st.extra.update({f"bound_{k}": v for k, v in info.items()})
     return core.finish(
